@@ -35,7 +35,14 @@ RULE = ("E1: random step configurations (label, shell flag, input map, environme
         "SHA-256 are compared inside Coq with inp_preimage (site_inp_cfg s) / (site_full_cfg s). Oracle on that "
         "path: pairs differing in exactly one system-level ingredient (26 kinds, among them defined-but-empty "
         "versus undefined, 'None' versus undefined, infra_env versus os.environ, tracked versus override) must "
-        "differ in the digest; 4 kinds of irrelevant change must not.")
+        "differ in the digest; 4 kinds of irrelevant change must not. "
+        "E3 (guard): the real compute_inp_hashes over one or two recorded paths on real files after 15 kinds of "
+        "manipulation (both supply orders) against the model: same outcome (quiet / messages / ConsistencyError) and "
+        "the same all_hashes. E4 (stored hashes): json_converter.unstructure of random FileHash / StepHash values "
+        "(unknown, compact, explained, with and without outputs, inode up to 2^64-1, float mtimes) is the model's tree, "
+        "the tree survives json.dumps/json.loads, and the model structures it back to what from_json returned. "
+        "Oracle additions: a missing / vanished / changed input never passes compute_inp_hashes quietly; os.stat, "
+        "FileHash.refreshed and os.environ refuse strings with NUL.")
 TRUSTED_BASE = [
     "Coq 8.16.1 kernel (vm_compute used in Examples, refutation witnesses and the correspondence evaluation)",
     "Print Assumptions: Closed under the global context for every C13 theorem (no axioms)",
@@ -43,6 +50,12 @@ TRUSTED_BASE = [
     "FileHash.unknown/is_unknown/refreshed); the decoder and refreshed in model/Hash.v are hand-written",
     "translator/gen_hash_sites.py (AST shapes of the four call sites in executor.py, Executor.base_env, "
     "Step.adjust_label / command_and_workdir / uses_shell / get_env_overrides, compute_*_hashes, the job plumbing)",
+    "translator/gen_hash_skip.py (if-tree of compute_inp_hashes per path, statement sequence and the two digest tests of "
+    "Executor.try_skip_job, validate_dynamic_job, where the recorded hash comes from); the composition in model/HashSkip.v "
+    "(compute_inp_hashes over sorted paths, observed_inps, full_step_hash, try_skip) is hand-written",
+    "translator/gen_hash_json.py (attrs fields of FileHash/InpInfo/OutInfo/StepHash, to_json/from_json, cattrs.py; measured: "
+    "the installed cattrs converter maps bytes to base64.b85encode, base64._b85alphabet); lib/Base85.v and the converter "
+    "combinators of model/HashJsonTypes.v are hand-written (tied by E4)",
     "correspondence harness harness/p_c13.py, harness/c13_exec.py (Gallina literal printer, hashlib.sha256 as "
     "SHA-256, os.stat, os.environ patching)",
     "no extraction is used: the model is evaluated inside Coq by vm_compute",
@@ -57,7 +70,10 @@ ASSUMPTIONS = [
     "value the command sees for it is the one in Executor.base_env",
     "json.loads(json.dumps(d)) == d for the str->str dict of overrides stored in step.env_overrides (exercised by E2)",
     "os.stat never reports a NaN mtime; mtime is compared as a float, as the code does",
-    "JSON save/load round trip of FileHash/StepHash is tested only (cattrs + json are not modelled)",
+    "json.loads(json.dumps(tree)) == tree for the trees to_json writes, floats included (text layer not modelled; "
+    "exercised by E4 and the JSON oracle on every run)",
+    "SHA-256 has no collision on the two pairs of pre-images a skip decision compares (hypothesis no_collision of the "
+    "end-to-end theorems)",
 ]
 
 SIG_D2 = "oracle:collision:unknown-digest-is-one-byte-bytes-word"
@@ -1283,7 +1299,71 @@ def _oracle_refreshed(ctx, n):
                       {"op": op, "new": repr(new)})
 
 
+def _oracle_guard(ctx):
+    """Implementation only: what keeps ill-formed ingredients away from StepHash.from_inp.
+    (a) compute_inp_hashes never returns quietly with an unknown hash in all_hashes (missing input recorded as
+        unknown -> ConsistencyError; vanished or changed input -> a message);
+    (b) the sources of the strings refuse NUL: os.stat / FileHash.refreshed on a path with NUL raise ValueError
+        (no FileHash of such a path can exist), os.environ refuses NUL in names and values."""
+    import threading
+
+    from stepup.core.hash import FileHash, compute_inp_hashes
+    with tempfile.TemporaryDirectory(prefix="verif-c13-q-") as d:
+        present = os.path.join(d, "present")
+        with open(present, "wb") as fh:
+            fh.write(b"data")
+        rec = FileHash.unknown().refreshed(present)
+        gone = os.path.join(d, "gone")
+        cases = {
+            "never-present-recorded-unknown": {gone: FileHash.unknown()},
+            "vanished": {gone: rec},
+            "present-recorded-unknown": {present: FileHash.unknown()},
+            "mixed": {present: rec, gone: FileHash.unknown()},
+        }
+        with open(present, "ab") as fh:
+            pass
+        for name, olds in cases.items():
+            ctx.case(("guard", name), True)
+            try:
+                res = compute_inp_hashes(olds, threading.Event())
+            except Exception as e:  # noqa: BLE001
+                ctx.count("guard_raises_" + type(e).__name__)
+                continue
+            unknown = [p for p, h in res.all_hashes.items() if h.is_unknown]
+            if not res.messages and unknown:
+                ctx.add_failure("oracle", "guard:unknown-input-reaches-from_inp",
+                                f"oracle:guard:unknown-input-passes-compute_inp_hashes:{name}",
+                                "compute_inp_hashes returned without messages although all_hashes holds an unknown "
+                                "hash: the executor would hand it to StepHash.from_inp (D2 ambiguity on the input side)",
+                                witness={"case": name, "olds": {os.path.basename(p): repr(h) for p, h in olds.items()},
+                                         "unknown": [os.path.basename(p) for p in unknown]})
+            if not res.messages and any(res.all_hashes[p] != olds[p] for p in olds):
+                ctx.add_failure("oracle", "guard:changed-input-reaches-from_inp",
+                                f"oracle:guard:changed-input-passes-compute_inp_hashes:{name}",
+                                "compute_inp_hashes returned without messages although a hash differs from the recorded one",
+                                witness={"case": name})
+    for what, fn in (("os.stat", lambda: os.stat("a\0b")),
+                     ("FileHash.refreshed", lambda: FileHash.unknown().refreshed("a\0b")),
+                     ("os.environ name", lambda: os.environ.__setitem__("C13\0X", "v")),
+                     ("os.environ value", lambda: os.environ.__setitem__("C13_NULPROBE", "a\0b"))):
+        ctx.case(("nul-refused", what), True)
+        try:
+            fn()
+        except ValueError:
+            ctx.count("nul_refused")
+            continue
+        except Exception as e:  # noqa: BLE001
+            ctx.notes.append(f"NUL probe {what}: {type(e).__name__}")
+            continue
+        os.environ.pop("C13\0X", None)
+        os.environ.pop("C13_NULPROBE", None)
+        ctx.add_failure("oracle", "nul-accepted", f"oracle:nul-accepted:{what}",
+                        f"{what} accepts a string with an embedded NUL: the NUL-freeness the injectivity theorems assume "
+                        "is not guaranteed by this source", witness={"source": what})
+
+
 def oracle(ctx):
+    _oracle_guard(ctx)
     _oracle_ambiguity(ctx, ctx.scale(60, 1000))
     _oracle_pairs(ctx, ctx.scale(1300, 20000))
     _oracle_json(ctx, ctx.scale(60, 1000))
